@@ -64,7 +64,7 @@ def run(ctx):
         # generated programs (deeply nested data included), both stores, three host modes
         progs = progsuite.gen_programs(ctx, 1500 if ctx.tier == 'quick' else 40000, 1)
         for src, ast, root, stream in progs:
-            add(src, rnd.choice(progsuite.STORES), rnd.choice(proggen.INPUTS), rnd.choice(progsuite.HOSTS))
+            add(src, rnd.choice(progsuite.STORES), rnd.choice(proggen.LOOP_INPUTS if stream == 'loops' else proggen.INPUTS), rnd.choice(progsuite.HOSTS))
         # deep nesting
         for d in (10, 100, 400):
             add('(' * d + '1' + ')' * d, 'simple'); add('(' * d + '1' + ')' * d, 'basic')
